@@ -64,3 +64,39 @@ Example C17_overflow_example :
   let '(st, mask) := pc_run (pc_new 1) [SIetfRequest 7; SClassicRequest 7; SInvalidRequest 9] in
   mask = [true; false; false] /\ pc_overflows st = 2 /\ length (pc_clients st) = 1%nat.
 Proof. vm_compute. repeat split. Qed.
+
+(* ---- wiring: the recorded events against the traffic actually served ----
+   For every queue of datagrams, every state left by earlier traffic and EVERY pattern of send
+   failures (send_fails cfg a = true: send_to(.., a) returns an error), the statistics events the
+   serving loop hands to its recorder (so_stats) satisfy, per client address a:
+     - one request event (IETF / classic / invalid) per datagram read from a;
+     - one response event per datagram actually emitted to a, carrying exactly its size
+       (so response counts and byte totals equal what was sent);
+     - one failed-send event per reply to a whose send failed, and every attempted reply is either
+       emitted or counted as failed — never both, never neither;
+     - no health-check or retry events.
+   Together with C17_conservation / C17_aggregated (events -> counters) this ties the recorded
+   totals to the traffic served. *)
+Require Import RV.Gen.Tables RV.Model.Message RV.Model.Merkle RV.Model.Request RV.Model.Keys
+        RV.Spec.MerkleGoals RV.Spec.RefVerify RV.Spec.ServerGoals RV.Proofs.RequestFacts RV.Proofs.ServerFacts RV.Proofs.WiringFacts.
+
+Theorem C17_wiring :
+  forall H ed_pk ed_sign, HashLen H -> PkLen ed_pk -> SigLen ed_sign ->
+  forall cfg lt oi oc s queue clk coins,
+    SInv H ed_pk ed_sign cfg lt oi oc s -> fault_pct cfg = 0 ->
+    (1 <= batch_size cfg)%nat -> (batch_size cfg <= 255)%nat ->
+    exists s' out,
+      process_events H ed_sign s queue clk coins = Ok (s', out)
+      /\ forall a,
+           wired (send_fails cfg) a queue
+                 (spec_drain_sent H ed_pk ed_sign (S (length queue)) (batch_size cfg)
+                    (ltk_srv_value H ed_pk lt) lt oi oc clk 0 queue)
+                 (so_sent out) (so_stats out).
+Proof.
+  intros H ed_pk ed_sign HL HP HS cfg lt oi oc s queue clk coins Hinv Hf Hb1 Hb2.
+  destruct (drain_spec_f H ed_pk ed_sign classify_wellformed HL HP HS cfg lt oi oc s queue clk coins Hinv Hf Hb1 Hb2)
+    as [s' [lg [E _]]].
+  eexists. eexists. split; [exact E|]. intro a. cbn [so_sent so_stats].
+  apply wiring_drain; [exact Hb1|apply Nat.lt_succ_diag_r].
+Qed.
+Print Assumptions C17_wiring.
